@@ -110,6 +110,22 @@ theorem C06_shared_attribute_breaks :
     ¬ Coherent demoCompute (sharedAugAssign demoCompute a b "_buffers" (· + 1)).2 :=
   shared_attribute_breaks
 
+/-! ## exception safety of a lazy read -/
+
+/-- a read whose evaluation raises leaves the cache as it was, apart from the lazy properties that
+were read successfully on the way: coherence is kept, and with no nested reads the object is
+literally unchanged - so the next read behaves like a read on a fresh object in the same state -/
+theorem C06_failed_read_coherent (compute : Name → (Name → Val) → Val) (o : Obj) (qs : List Name)
+    (h : Coherent compute o) :
+    Coherent compute (failedRead compute o qs) ∧ failedRead compute o [] = o :=
+  ⟨failedRead_coherent o qs h, rfl⟩
+
+/-- a `lazy_property` that reserved the cache slot before evaluating and left the marker behind on
+failure would serve the marker on the next read: not coherent -/
+theorem C06_marker_on_failure_breaks :
+    Coherent demoCompute demoObj ∧ ¬ Coherent demoCompute (failedReadMarker demoObj "values") :=
+  failedReadMarker_breaks
+
 /-! ## the regenerated tables -/
 
 /-- the two generated tables describe the same classes in the same order -/
